@@ -21,27 +21,27 @@ func init() {
 		NotDecided: "that replicas believed RW are up to date; liveness beyond freshness at unlock.",
 	}
 	registry["C04"] = &propSpec{
-		Rules: []ruleFn{ruleBuildRW("C04-READERS"), ruleC04Lists("C04-LISTS"), ruleIndexMapUse("C04-READSRC"), ruleC04Verify("C04-VERIFY"), ruleC04Promote("C04-PROMOTE"), ruleC04ReadGate, ruleDetach("C04-DETACH")},
+		Rules: []ruleFn{ruleBuildRW("C04-READERS"), ruleC04Lists("C04-LISTS"), ruleIndexMapUse("C04-READSRC"), ruleC04Verify("C04-VERIFY"), ruleC04Promote("C04-PROMOTE"), ruleC04ReadGate, ruleDetach("C04-DETACH"), ruleC05Monitor("C04-ERRSUPPRESS")},
 		Explanation: "Decides that readers are exactly the mode==RW backends and are rebuilt after every change of the backend map or of a mode; reads are issued only from replicator.ReadAt on r.readers[index] and a failed reader is reported under the same index; the only promotion sites are the allow-listed ones; VerifyRebuildReplica promotes only after, in order, WO mode, both chains and the checkpoint fetched, checkpoint containment, DeepEqual of the chains, the RW counter read, the replica switched to RW and the counter copied; the reference replica is selected under Mode==RW; ERR is sticky.",
 		NotDecided: "that an equal chain implies equal data; round-robin fairness.",
 	}
 	registry["C05"] = &propSpec{
-		Rules: []ruleFn{ruleDetach("C05-DETACH"), ruleC05Monitor("C05-MONITOR"), ruleC04Lists("C05-STOPIO"), ruleC05Ping("C05-PING"), ruleC15Client, ruleC02Majority, ruleC02Decode, ruleIndexMapUse("C05-INDEXMAP"), ruleC04ReadGate},
+		Rules: []ruleFn{ruleDetach("C05-DETACH"), ruleC05Monitor("C05-MONITOR"), ruleC04Lists("C05-STOPIO"), ruleC05Ping("C05-PING"), ruleC15Client, ruleC02Majority, ruleC02Decode, ruleIndexMapUse("C05-INDEXMAP"), ruleC04ReadGate, ruleC14Block},
 		Explanation: "Decides that every failure detector ends in ERR marking plus removal under the controller lock (I/O error paths, monitor goroutine, ping failure, rpc time-out / transport error poisoning the client and failing all pending requests), that a removed backend leaves the reader/writer lists at once, that backend I/O is issued only through those lists, and that a failing strict minority still yields the majority encoding accepted by the controller.",
 		NotDecided: "wall-clock promptness; which detector fires first; that the survivors hold the data.",
 	}
 	registry["C06"] = &propSpec{
-		Rules: []ruleFn{ruleC06Hole, ruleC06Snapstep, ruleC01Head},
+		Rules: []ruleFn{ruleC06Hole, ruleC06Snapstep, ruleC01Head, ruleC11Sync, ruleC06RevertCtl},
 		Explanation: "Decides that every hole-punch request targets the file whose index the dominating strict guard compared with the latest user-created snapshot index (guard/use consistency via files[G] or paired phis), that UserCreatedSnap changes in lock-step with the file list and SnapIndx is set only under the user-created flag, that the hole queue is drained before files are unlinked or closed, that only fullWriteAt writes chain files (and only the head), and that revert creates the new head on the requested snapshot, commits volume.meta before removing the old head and reloads with preload.",
 		NotDecided: "that the snapshot image equals the volume at the instant it was taken; byte identity after preload/reopen; what FIEMAP reports.",
 	}
 	registry["C07"] = &propSpec{
-		Rules: []ruleFn{ruleC07AddOrder("C07-ADD-ORDER"), ruleC07Merge, ruleC07Sync, ruleCanAdd("C07-ONE-WO"), ruleC04Verify("C07-VERIFY"), ruleBuildRW("C07-WRITERS")},
+		Rules: []ruleFn{ruleC07AddOrder("C07-ADD-ORDER"), ruleC07Merge, ruleC07Sync, ruleCanAdd("C07-ONE-WO"), ruleC04Verify("C07-VERIFY"), ruleBuildRW("C07-WRITERS"), ruleIndexMapUse("C07-INDEXMAP"), ruleC01Head},
 		Explanation: "Decides the ordering obligations of a rebuild: admission only after canAdd, the same snapshot on old and new replicas, WO mode on replica, list entry and wrapper; at most one WO unless the newcomer has the strictly greater revision and the old WO was removed; punching off and rebuilding flag set before the copy; ReloadReplica -> SyncDir -> UpdateLUNMap -> VerifyRebuildReplica -> SetRebuilding(false), each after the success of its predecessor; the live block map is overwritten by the preloaded one only where live <= preloaded; WO replicas receive every write; promotion as in C04-VERIFY.",
 		NotDecided: "byte identity (copying is done by external ssync); interleavings and crash points of three processes.",
 	}
 	registry["C08"] = &propSpec{
-		Rules: []ruleFn{ruleC08Atomic, ruleC08Err, ruleC08Commit, ruleC08Dur},
+		Rules: []ruleFn{ruleC08Atomic, ruleC08Err, ruleC08Commit, ruleC08Dur, ruleC08CloseWho, ruleC16Repl},
 		Explanation: "Decides that metadata is written tmp(O_CREATE|O_TRUNC|O_SYNC) -> Encode -> Close -> Rename -> SyncDir with each step after the success of the previous; that no error of a metadata/directory primitive is dropped or tested through the wrong variable; the commit order of snapshot creation and removal; and, by a {clean,dirty} typestate with interprocedural summaries, that on fault-free executions every exported replica operation returns success only with the directory fsynced after its last directory-entry change.",
 		NotDecided: "what reopen sees at each intermediate on-disk state; torn 4 KiB writes; durability of O_DIRECT data.",
 	}
@@ -66,12 +66,12 @@ func init() {
 		NotDecided: "acyclicity/shape of the chain as a run-time graph; equality of the reopened chain with the previous one.",
 	}
 	registry["C13"] = &propSpec{
-		Rules: []ruleFn{ruleC13Ctl, ruleFresh("C13-FRESH", fCtl+"UpdateCheckpoint"), ruleC03Gate, ruleC12},
+		Rules: []ruleFn{ruleC13Ctl, ruleFresh("C13-FRESH", fCtl+"UpdateCheckpoint"), ruleC03Gate, ruleC12, ruleC13Persist},
 		Explanation: "Decides that the snapshot fan-out and every mutating I/O run under the controller write lock (so they cannot interleave), that a volume snapshot needs RWReplicaCount==RF, goes to every non-ERR backend with identical arguments and reports per-replica failures; that the checkpoint is non-empty only when rw==RF, all RW chains agree on chain[1] and every replica stored it; that the checkpoint is recomputed before the lock is released after any membership change; and that the replica persists it.",
 		NotDecided: "identical content of the snapshot across replicas.",
 	}
 	registry["C14"] = &propSpec{
-		Rules: []ruleFn{ruleC14Lock, ruleC14Block, ruleC14Fatal, ruleC14Idx, ruleC14Wrap, ruleC17Matrix, ruleC17Srv},
+		Rules: []ruleFn{ruleC14Lock, ruleC14Block, ruleC14Fatal, ruleC14Idx, ruleC14Wrap, ruleC17Matrix, ruleC17Srv, ruleC07AddOrder("C14-NODUP"), ruleC09},
 		Explanation: "Decides, for every production function: no double unlock (incl. deferred), no self-deadlock directly or through a callee, no return with a lock held, an acyclic lock order; no blocking send under the controller / replica-server lock outside the allow-listed consumer-backed queues; in the handler-reachable region only allow-listed terminators and single-value type assertions, bounds facts on chains received from replicas, no nil result dereferenced with its error ignored; every route wrapped by HandleError and action routes by checkAction.",
 		NotDecided: "panics inside third-party handlers, resource exhaustion, liveness of remote calls made under the lock.",
 	}
@@ -81,7 +81,7 @@ func init() {
 		NotDecided: "matching under all interleavings as a history property; behaviour on corrupted streams beyond the magic check; bounded time.",
 	}
 	registry["C16"] = &propSpec{
-		Rules: []ruleFn{ruleC16Ctl, ruleC16Repl},
+		Rules: []ruleFn{ruleC16Ctl, ruleC16Repl, ruleC17Matrix},
 		Explanation: "Decides that shrinking and equal sizes are refused on the controller and shrinking on the replica before anything is touched; that the controller records the new size only after all non-ERR replicas (incl. rebuilding ones) and the frontend resized; that the replica truncates every chain member, extends the block map by (new-old)/4096 before overwriting the size, and persists r.info after the store.",
 		NotDecided: "that existing bytes are unchanged and the new range reads zero (properties of truncate(2)).",
 	}
